@@ -2270,6 +2270,22 @@ impl<'a> Model<'a> {
             }
         }
         if items.iter().any(|it| matches!(it, PItem::E(e) if has_call(e))) {
+            // ... but wherever the statement stopped, the error it raised is its own:
+            // row of this statement, column inside its text
+            if let (Some((row, c0, c1)), Some(errs)) = (self.span_of(s.id), self.errors.get(&key)) {
+                for (_, erow, ecol) in errs {
+                    if *erow != row || *ecol < c0 || *ecol > c1 {
+                        return self.diverge(
+                            Class::Position,
+                            Some(s.id),
+                            format!(
+                                "error of statement {} (a PRINT cut short by a device fault) reported at {}:{}, statement text is at row {} columns {}..={}",
+                                s.id, erow, ecol, row, c0, c1
+                            ),
+                        );
+                    }
+                }
+            }
             return Err(Stop::Early(
                 "PRINT with function-call items cut short by a fault".into(),
             ));
